@@ -816,13 +816,19 @@ def SetOut (CT : CTab) (a : Heap) (wc wi w : Val) (s : St) : Except Err Unit × 
 theorem run_indexSet_arr_int (l id : Nat) (xs : List Val) (n : Int64) (v : Val) (s : St) :
     run (indexSet l (.arr id xs) (.int n) v) s =
       if (decide (n.toInt < 0) || decide (n.toInt ≥ ((s.heap.getArr id).length : Int))) = true then (.error (.rt l), s)
+      else if s.keyed.contains id = true then (.error .unc, s)
       else (.ok (), { s with heap := s.heap.set id (.arr ((s.heap.getArr id).set n.toInt.toNat v)) }) := by
   rw [indexSet]
   show run (if _ then _ else _) s = _
-  split <;> rfl
+  split
+  · rfl
+  · show run (guardKeyed id >>= _) s = _
+    unfold guardKeyed
+    rw [bind_assoc, run_get_bind]
+    split <;> rfl
 
-theorem indexSet_bridge {CT : CTab} {va wc vi wi v w : Val} {s : St} {a : Heap} (hr : HR CT s.heap a) (hc : VR CT va wc) (hi : VR CT vi wi)
-    (hv : VR CT v w) (l : Nat) : SetOut CT a wc wi w s (run (indexSet l va vi v) s) := by
+theorem indexSet_bridge {CT : CTab} {va wc vi wi v w : Val} {s : St} {a : Heap} (hr : HR CT s.heap a) (hkd : s.keyed = [])
+    (hc : VR CT va wc) (hi : VR CT vi wi) (hv : VR CT v w) (l : Nat) : SetOut CT a wc wi w s (run (indexSet l va vi v) s) := by
   rcases hc.cases3 with ⟨hn, ho⟩ | ⟨id, h0, rfl, rfl⟩
   · rcases ho with ⟨hs, rfl⟩ | ⟨k, fd, hid, rfl, rfl, -⟩
     · have h1 : run (indexSet l wc vi v) s = (.error (.rt l), s) := by
@@ -858,7 +864,8 @@ theorem indexSet_bridge {CT : CTab} {va wc vi wi v w : Val} {s : St} {a : Heap} 
               show Core.Fn.setIndexH a (.arr id []) (.int n) w = none
               have : ¬ n.toInt.toNat < (a.getArr id).length := by omega
               rw [setIndexH_arr_int, if_neg hnn, if_neg this]
-            · simp only [hneg, hge, decide_false, Bool.or_false, Bool.false_eq_true, if_false]
+            · have hkc : s.keyed.contains id = false := by rw [hkd]; rfl
+              simp only [hneg, hge, decide_false, Bool.or_false, Bool.false_eq_true, if_false, hkc]
               have hlt : n.toInt.toNat < (s.heap.getArr id).length := by omega
               have hlt' : n.toInt.toNat < (a.getArr id).length := by omega
               refine ⟨_, a.set id (.arr ((a.getArr id).set n.toInt.toNat w)), ?_, hr.set hv hlt, rfl⟩
@@ -1252,6 +1259,8 @@ structure Inv (CT : CTab) (n : Nat) (st : St) (σ : Sto) : Prop where
   heap : HR CT st.heap σ.a
   hidInj : ∀ (k k' : Nat) (e e' : CE), CT[k]? = some e → CT[k']? = some e' → e.hid = e'.hid → k = k'
   hidLt : ∀ (k : Nat) (e : CE), CT[k]? = some e → e.hid < σ.h.length
+  /-- no container is (part of) a map key: the fragment has no maps (`St.keyed`, see `Ref.guardKeyed`) -/
+  keyed : st.keyed = []
 
 /-- the static data of an activation (`act`: the oracle's list of running closure ids while this activation runs,
 its own id first) -/
@@ -1336,19 +1345,19 @@ theorem ClosEntry.mono {CT CT' : CTab} {h h' : List (List Val)} {n n' : Nat} {c 
 theorem Inv.of_gh {CT : CTab} {n : Nat} {st : St} {σ σ' : Sto} (hg : σ'.g = σ.g) (hh : σ'.h = σ.h) (ha : σ'.a = σ.a) (h : Inv N Φ CT n st σ) :
     Inv N Φ CT n st σ' :=
   ⟨h.closLen, by rw [hh]; exact h.clos, h.cellsLen, by rw [hg]; exact h.gLen, by rw [hg]; exact h.cells, h.fresh, by rw [ha]; exact h.heap,
-   h.hidInj, by rw [hh]; exact h.hidLt⟩
+   h.hidInj, by rw [hh]; exact h.hidLt, h.keyed⟩
 
 theorem Inv.setA {CT : CTab} {n : Nat} {st : St} {σ : Sto} (h : Inv N Φ CT n st σ) {hp a' : Heap} (hr : HR CT hp a') :
     Inv N Φ CT n { st with heap := hp } (σ.setA a') :=
-  ⟨h.closLen, h.clos, h.cellsLen, h.gLen, h.cells, h.fresh, hr, h.hidInj, h.hidLt⟩
+  ⟨h.closLen, h.clos, h.cellsLen, h.gLen, h.cells, h.fresh, hr, h.hidInj, h.hidLt, h.keyed⟩
 
 theorem Inv.of_active {CT : CTab} {n : Nat} {st : St} {σ : Sto} (h : Inv N Φ CT n st σ) (act : List Nat) :
     Inv N Φ CT n { st with active := act } σ :=
-  ⟨h.closLen, h.clos, h.cellsLen, h.gLen, h.cells, h.fresh, h.heap, h.hidInj, h.hidLt⟩
+  ⟨h.closLen, h.clos, h.cellsLen, h.gLen, h.cells, h.fresh, h.heap, h.hidInj, h.hidLt, h.keyed⟩
 
 theorem Inv.gset {CT : CTab} {n : Nat} {st : St} {σ : Sto} {j : Nat} {v w : Val} (h : Inv N Φ CT n st σ) (hj : j < n)
     (hv : VR CT v w) : Inv N Φ CT n { st with cells := st.cells.set j v } (σ.gset j w) := by
-  refine ⟨h.closLen, h.clos, by simp [h.cellsLen], by simp [h.gLen], ?_, h.fresh, h.heap, h.hidInj, h.hidLt⟩
+  refine ⟨h.closLen, h.clos, by simp [h.cellsLen], by simp [h.gLen], ?_, h.fresh, h.heap, h.hidInj, h.hidLt, h.keyed⟩
   intro i hi
   obtain ⟨v0, w0, h1, h2, h3⟩ := h.cells i hi
   by_cases hij : j = i
@@ -1454,7 +1463,7 @@ theorem Inv.pushClos {CT : CTab} {n : Nat} {st : St} {σ : Sto} (hI : Inv N Φ C
       subst hk'
       simp only [List.getElem?_concat_length, Option.some.injEq] at hk
       exact .inr ⟨rfl, hk.symm⟩
-  refine ⟨by simp [hI.closLen], ?_, hI.cellsLen, hI.gLen, ?_, hI.fresh, hI.heap.mono hp, ?_, ?_⟩
+  refine ⟨by simp [hI.closLen], ?_, hI.cellsLen, hI.gLen, ?_, hI.fresh, hI.heap.mono hp, ?_, ?_, hI.keyed⟩
   · intro k e' hk
     rcases hget k e' hk with ⟨hlt, hk0⟩ | ⟨rfl, rfl⟩
     · obtain ⟨c0, hc0, he0⟩ := hI.clos k e' hk0
@@ -2128,7 +2137,7 @@ theorem expr_succ (f : Nat) (ih : ∀ f', f' ≤ f → AllOK N Φ f') :
     have hI2 : Inv N Φ CT1 n
         { s1 with clos := s1.clos.modify (k + 1 - 1) fun c => { c with captured := (name, .cap (.other "poison")) :: c.captured } }
         (σ1.setH (σ1.h.set hid (fr.set j w))) := by
-      refine ⟨by simp [hI1.closLen], ?_, hI1.cellsLen, hI1.gLen, hI1.cells, hI1.fresh, hI1.heap, hI1.hidInj, ?_⟩
+      refine ⟨by simp [hI1.closLen], ?_, hI1.cellsLen, hI1.gLen, hI1.cells, hI1.fresh, hI1.heap, hI1.hidInj, ?_, hI1.keyed⟩
       · intro k2 e2 hk2
         by_cases hkk : k2 = k
         · subst hkk
@@ -2238,7 +2247,7 @@ theorem expr_succ (f : Nat) (ih : ∀ f', f' ≤ f → AllOK N Φ f') :
     rintro r ⟨wi, σ3⟩ s3 ⟨vi, vals3, CT3, rfl, hvi, hn3⟩
     dsimp only
     have hv3 : VR CT3 v w := (hv.mono hn2.ext).mono hn3.ext
-    have hb := indexSet_bridge hn3.inv.heap (hvc.mono hn3.ext) hvi hv3 l
+    have hb := indexSet_bridge hn3.inv.heap hn3.inv.keyed (hvc.mono hn3.ext) hvi hv3 l
     rw [run_bind]
     generalize run (indexSet l vc vi v) s3 = o at hb ⊢
     rcases o with ⟨er | u, s4⟩
@@ -3150,7 +3159,7 @@ theorem TopR.frame {n : Nat} {base : Env} {CT : CTab} {st : St} {g : List Val} {
 theorem Inv.defGlobal {CT : CTab} {n : Nat} {st : St} {σ : Sto} {v w : Val} (hI : Inv N Φ CT n st σ) (hv : VR CT v w)
     (hn : n < σ.g.length) :
     Inv N Φ CT (n + 1) { st with cells := st.cells ++ [v], sites := (n, n) :: st.sites } (σ.gset n w) := by
-  refine ⟨hI.closLen, ?_, by simp [hI.cellsLen], by simp; omega, ?_, ?_, hI.heap, hI.hidInj, hI.hidLt⟩
+  refine ⟨hI.closLen, ?_, by simp [hI.cellsLen], by simp; omega, ?_, ?_, hI.heap, hI.hidInj, hI.hidLt, hI.keyed⟩
   · intro k e hk
     obtain ⟨c, hc, he⟩ := hI.clos k e hk
     exact ⟨c, hc, he.mono (List.prefix_refl _) rfl (Nat.le_succ n)⟩
@@ -3428,7 +3437,7 @@ omit hN in
 theorem TopR.init (N : Names) (Φ : FnDef → Option FDecl) (G : Nat) (h : List (List Val)) :
     TopR N Φ G 0 [[]] [] {} (List.replicate G .null) h {} :=
   ⟨⟨rfl, fun k e hk => by simp at hk, rfl, Nat.zero_le _, fun j hj => absurd hj (Nat.not_lt_zero j), fun _ _ => rfl, HR.init [],
-    fun k k' e e' hk => by simp at hk, fun k e hk => by simp at hk⟩,
+    fun k k' e e' hk => by simp at hk, fun k e hk => by simp at hk, rfl⟩,
    List.length_replicate, rfl, fun j hj => absurd hj (Nat.not_lt_zero j), rfl⟩
 
 /-- **whole programs with functions and closures** (`…_partial`: the programs `okTop`).  If the oracle runs the
@@ -3876,6 +3885,32 @@ theorem reT_ok' (Φ : FnDef → Option FDecl)
 theorem reT_ok : okTop stdNames (Core.Fn.phiT reT) 3 0 reT = true := reT_ok' _ (by rfl) (by rfl)
 
 theorem reT_oracle_unc : isUnc (run (evalStmts 80 [[]] (toTops stdNames reT) .null) {}) = true := by
+  decide +kernel
+
+/-! ### FINDING (audit; repaired in `Spec/Ref.lean`: `St.keyed`): mutating an array that is a key of a map
+```
+let k = [1];
+let m = map { k: 10 };
+k[0] = 2;              // the oracle: `unc` from here on (`k` is keyed)
+let r = m[[2]];        // the implementation: KeyError (the key was hashed when it was inserted)
+```
+Before the repair the oracle re-read the stored key through the CURRENT heap and ended normally. -/
+def keyedT : List FTop := [
+  .stmt (.letG 1 0 (.arrLit 1 (.cons (.lit 1 (.int 1)) .nil))),
+  .stmt (.letG 2 1 (.mapLit 2 (.cons (.gget 2 0) (.cons (.lit 2 (.int 10)) .nil)))),
+  .stmt (.expr 3 (.setIndex 3 (.gget 3 0) (.lit 3 (.int 0)) (.lit 3 (.int 2)))),
+  .stmt (.letG 4 2 (.index 4 (.gget 4 1) (.arrLit 4 (.cons (.lit 4 (.int 2)) .nil))))]
+
+theorem keyedT_oracle_unc : isUnc (run (evalStmts 60 [[]] (toTops stdNames keyedT) .null) {}) = true := by
+  decide +kernel
+
+/-- without the mutation the oracle commits (the lookup of an equal array key finds the entry) -/
+def keyedT' : List FTop := [
+  .stmt (.letG 1 0 (.arrLit 1 (.cons (.lit 1 (.int 1)) .nil))),
+  .stmt (.letG 2 1 (.mapLit 2 (.cons (.gget 2 0) (.cons (.lit 2 (.int 10)) .nil)))),
+  .stmt (.letG 4 2 (.index 4 (.gget 4 1) (.arrLit 4 (.cons (.lit 4 (.int 1)) .nil))))]
+
+theorem keyedT'_oracle : cellInts (run (evalStmts 60 [[]] (toTops stdNames keyedT') .null) {}) = some [none, none, some 10] := by
   decide +kernel
 
 end Examples
